@@ -121,6 +121,7 @@ package ice
 //@   site call setGatheringState#1 assert announces-gathering-first: arg1 == ctx && arg2 == GatheringStateGathering
 //@   site call setGatheringState#2 assert completes-with-the-same-cycle-context: arg1 == ctx && arg2 == GatheringStateComplete
 //@   site call startNetworkMonitoring#1 assert the-network-monitor-ends-with-the-cycle-that-started-it: arg1 == ctx
+//@   site call startNetworkMonitoring#1 assert C09 the-monitor-and-the-re-gatherings-it-starts-run-inside-the-cycle-so-that-done-covers-their-sockets: !spawned
 
 // Continual gathering: the monitor re-gathers only inside the cycle it belongs to (the context Restart
 // and Close cancel), and it is the only other caller of the gatherers.
@@ -273,6 +274,15 @@ package ice
 //@   site call closeConnAndLog#0 assert C09 closes-the-connection-it-just-dialled: pending == 1 && arg0.payload == conn
 //@   site call closeConnAndLog#0 ghost pending := 0
 //@   site call NewCandidateHost#1 assert C18 an-active-tcp-host-candidate-on-the-dialling-address: arg0.TCPType == TCPTypeActive && arg0.Component == ComponentRTP
+//@   site call NewCandidateHost#1 assert C18 mdns-gather-mode-publishes-the-name-not-the-ip: a.mDNSMode == MulticastDNSModeQueryAndGather ==> arg0.Address == a.mDNSName && !arg0.IsLocationTracked
+//@   ghostvar linkLocal bool = false
+//@   site call shouldFilterLocationTrackedIP#1 assert C18 judges-the-dialling-address: arg0 == localIPs[i].addr
+//@   site call shouldFilterLocationTrackedIP#1 ghost linkLocal := result
+//@   site call NewCandidateHost#1 assert C18 an-ipv6-link-local-dialling-address-is-marked-so-that-it-is-used-but-never-published: a.mDNSMode != MulticastDNSModeQueryAndGather ==> arg0.IsLocationTracked == linkLocal
+//@   ghostvar tracked bool = true
+//@   site call filterForLocationTracking#1 assert C18 asks-the-candidate-it-is-about-to-announce: recv == &localCandidate.candidateBase
+//@   site call filterForLocationTracking#1 ghost tracked := result
+//@   site call EnqueueCandidate#1 assert C18 location-tracked-candidates-are-never-published: !tracked
 //@   site call start#1 assert C09 the-candidate-owns-the-connection-it-was-dialled-for: pending == 1 && arg1 == a && arg2.payload == conn
 //@   site call start#1 ghost pending := 0
 //@   site call EnqueueCandidate#1 assert announces-the-started-candidate: arg1.payload == localCandidate
